@@ -115,24 +115,66 @@ func H_C03_tree() {
 	}
 }
 
+type c03LV struct{ v slog.Value }
+
+func (l c03LV) LogValue() slog.Value { return l.v }
+
+// attribute shapes handed to With: plain, keyed / inline / empty groups, deferred values
+func c03Shape(i int, s string) slog.Attr {
+	switch i {
+	case 0:
+		return slog.String(vxString(1), s)
+	case 1:
+		return slog.Int("n", 5)
+	case 2:
+		return slog.Group("kg", slog.String("x", s), slog.Int("y", 1))
+	case 3:
+		return slog.Group("", slog.String("x", s), slog.Int("y", 1))
+	case 4:
+		return slog.Group("e")
+	case 5:
+		return slog.Group("")
+	case 6:
+		return slog.Any("lv", c03LV{slog.GroupValue()})
+	case 7:
+		return slog.Group("o", slog.Group("e"), slog.Any("lv", c03LV{slog.StringValue(s)}))
+	}
+	return slog.Any("", c03LV{slog.GroupValue()})
+}
+
+const c03Shapes = 9
+
 // With(a...) then Info(m, b...) writes what root.Info(m, a..., b...) writes inside the open groups
 func H_C03_with_equiv() {
 	vxPoolMode(1)
 	kind := vxPick(3)
-	a := slog.String(vxString(1), vxString(vxParam("valLen")))
+	s := vxString(vxParam("eqLen"))
+	as := []any{c03Shape(vxPick(c03Shapes), s)}
+	if vxPick(2) == 1 {
+		as = append(as, c03Shape(vxPick(c03Shapes), "second"))
+		vxReach("With of two attributes")
+	}
 	b := slog.Int("b", 7)
+	asb := append(append([]any{}, as...), b)
 	w1, w2 := &c03Rec{}, &c03Rec{}
-	switch vxPick(3) {
+	switch vxPick(4) {
 	case 0: // With(a)
-		c03Root(kind, w1).With(a).Info("m", b)
-		c03Root(kind, w2).Info("m", a, b)
+		c03Root(kind, w1).With(as...).Info("m", b)
+		c03Root(kind, w2).Info("m", asb...)
 	case 1: // WithGroup(g).With(a)
-		c03Root(kind, w1).WithGroup("g").With(a).Info("m", b)
-		c03Root(kind, w2).Info("m", slog.Group("g", a, b))
+		c03Root(kind, w1).WithGroup("g").With(as...).Info("m", b)
+		c03Root(kind, w2).Info("m", slog.Group("g", asb...))
 	case 2: // With(a).WithGroup(g)
-		c03Root(kind, w1).With(a).WithGroup("g").Info("m", b)
-		c03Root(kind, w2).Info("m", a, slog.Group("g", b))
+		c03Root(kind, w1).With(as...).WithGroup("g").Info("m", b)
+		c03Root(kind, w2).Info("m", append(append([]any{}, as...), slog.Group("g", b))...)
 		vxReach("With then WithGroup")
+	case 3: // With(a) once per attribute
+		l := c03Root(kind, w1)
+		for _, a := range as {
+			l = l.With(a)
+		}
+		l.Info("m", b)
+		c03Root(kind, w2).Info("m", asb...)
 	}
 	vxAssert(len(w1.lines) == 1 && len(w2.lines) == 1 && w1.lines[0] == w2.lines[0], "C03: With() attributes do not appear as if passed at the call site")
 }
